@@ -22,7 +22,8 @@ RULE = ("(b) BFS over histories of the request-frame alphabet (initiate uploads 
         "store are compared with the reference; every new state is probed with 4 complete strict transfers. (a) matrix: "
         "every data type x value source x precedence x length 0..L, each uploaded and downloaded in 3 framings. (c) address "
         "pairs: every ordered pair of 20 addresses chosen to collide under common (index, sub-index) foldings (2^k index ratios, "
-        "low byte vs sub-index, sums, sub-index 255, three missing entries) x {read-read, write-read, read-write-read}. "
+        "low byte vs sub-index, sums, sub-index 255, three missing entries) x {read-read, write-read, read-write-read}; (d) sweep "
+        "of every length 65..1100 (2100) + 7000, 10000: segmented download + upload, framing and payload family rotating. "
         "non-trivial = histories of length >= 2 plus matrix cases with a segmented transfer or a precedence pair")
 ASSUMPTIONS = [
     "out-of-sequence requests may be answered by an abort or by a frame with the matching server command specifier, but must not change the store",
@@ -108,6 +109,12 @@ def cases(tier, seed):
             out.append({"part": "matrix", "type": t, "lens": lens[chunk:chunk + 8], "seed": seed})
     for a in range(len(PAIR_ADDRS)):
         out.append({"part": "address-pairs", "first": a})
+    # length sweep beyond the matrix: one segmented download + upload per length, framing / payload family rotating
+    top = 1100 if tier == "quick" else 2100
+    for lo in range(65, top + 1, 37):
+        out.append({"part": "sweep", "lens": [lo, min(lo + 36, top)], "seed": seed})
+    out.append({"part": "sweep", "lens": [7000, 7000], "seed": seed})
+    out.append({"part": "sweep", "lens": [10000, 10000], "seed": seed})
     return out
 
 
@@ -436,7 +443,42 @@ def run_pairs(case, st):
                     st.outcome("address pair ok")
 
 
+def run_sweep(case, st):
+    for n in range(case["lens"][0], case["lens"][1] + 1):
+        fam = simenv.FILLS[(n // 3) % len(simenv.FILLS)]
+        data = simenv.fill(n, case.get("seed", 0), fam)
+        mode, seg_len = (("seg_size", 7), ("seg_nosize", 7), ("seg_size", 3), ("seg_nosize", 5))[n % 4] if n < 3000 else ("seg_size", 7)
+        kind = ("var", "rec")[n % 2]
+        e = dict(index=0x2100, name="obj", type=("DOMAIN", "OCTET_STRING")[(n // 2) % 2], default=None)
+        entries = [e]
+        if kind == "rec":
+            e.update(kind="rec", sub=1, parent_name="Group")
+            entries = [dict(index=0x2100, sub=0, kind="rec", name="count", type="UNSIGNED8", default=1, access="ro",
+                            parent_name="Group"), e]
+        key = (0x2100, 1 if kind == "rec" else 0)
+        sim = _MatrixSim(entries, None)
+        st.evaluations += 1
+        st.nontrivial_n += 1
+        rc = {"part": "sweep", "lens": [n, n], "seed": case.get("seed", 0)}
+        try:
+            r = sdo_client.download(sim.send_strict, key[0], key[1], data, mode, seg_len)
+            got = sdo_client.upload(sim.send_strict, *key)
+        except sdo_client.ProtocolViolation as ex:
+            st.violation(f"C02:sweep:{ex.kind}:{fam}", rc, "conformant transfer", str(ex)[:200])
+            continue
+        stored = sim.real_store().get(key)
+        if r is not None or stored != data or not isinstance(got, bytes) or bytes(got) != data:
+            st.violation(f"C02:sweep:data:{fam}", rc, data.hex()[:60], f"result={r!r} stored={None if stored is None else stored.hex()[:60]} readback={repr(got)[:80]}")
+            continue
+        if sim.cb_log != [(key[0], key[1], key[0], key[1], data)]:
+            st.violation(f"C02:sweep:write-callback:{fam}", rc, "one callback with the data", repr(sim.cb_log)[:120])
+            continue
+        st.outcome("sweep ok")
+
+
 def run_case(case, st):
+    if case["part"] == "sweep":
+        return run_sweep(case, st)
     if case["part"] == "address-pairs":
         return run_pairs(case, st)
     if case["part"] == "bfs":
